@@ -208,6 +208,31 @@ func derivesFromLoop(fn *Func, e ast.Expr, loopVars map[types.Object]bool, loopB
 					}
 				}
 			}
+			// several definitions, all inside the loop body: each must derive from the element
+			if depth > 0 && loopBody != nil {
+				defs := defsOfIdent(fn, o)
+				all, any := len(defs) > 1, false
+				for _, d := range defs {
+					if d == nil {
+						all = false
+						break
+					}
+					if d.Pos() < loopBody.Pos() || d.End() > loopBody.End() {
+						all = false
+						break
+					}
+					ok2, _ := derivesFromLoop(fn, d, loopVars, loopBody, pureOnly, depth-1)
+					if !ok2 {
+						all = false
+						break
+					}
+					any = true
+				}
+				if all && any {
+					sawLoop = true
+					return true
+				}
+			}
 			okAll = false
 			if why == "" {
 				why = n.Name + " is not derived from the loop's element"
@@ -253,75 +278,7 @@ func runC09Ctx(p *Prog, r *Report) {
 					continue
 				}
 				nStore++
-				tp := pathOf(info, through)
-				// all definitions of the pointer path in this function
-				var bad []string
-				nd := 0
-				checkDef := func(rhs ast.Expr) {
-					nd++
-					if rhs == nil {
-						return
-					}
-					if !freshRangePtr(info, rhs) {
-						bad = append(bad, exprStr(rhs))
-					}
-				}
-				ast.Inspect(fn.Body, func(m ast.Node) bool {
-					switch m := m.(type) {
-					case *ast.AssignStmt:
-						if len(m.Lhs) == len(m.Rhs) {
-							for i, ll := range m.Lhs {
-								if pathOf(info, ll) == tp && tp != "" {
-									checkDef(m.Rhs[i])
-								}
-							}
-						}
-					case *ast.CompositeLit:
-						// X := T{…, RangePtr: e}: a definition of X.RangePtr
-						sel, ok := ast.Unparen(through).(*ast.SelectorExpr)
-						if !ok {
-							return true
-						}
-						par := p.Parent(m)
-						if u, ok := par.(*ast.UnaryExpr); ok {
-							par = p.Parent(u)
-						}
-						asg, ok := par.(*ast.AssignStmt)
-						if !ok || len(asg.Lhs) != 1 || pathOf(info, asg.Lhs[0]) != pathOf(info, sel.X) {
-							return true
-						}
-						for _, el := range m.Elts {
-							if kv, ok := el.(*ast.KeyValueExpr); ok {
-								if k, ok := kv.Key.(*ast.Ident); ok && k.Name == sel.Sel.Name {
-									checkDef(kv.Value)
-								}
-							}
-						}
-					}
-					return true
-				})
-				sort.Strings(bad)
-				construct := fmt.Sprintf("%s [%s]", exprStr(l), strings.Join(dedup(bad), ","))
-				if rss := enclosingRanges(p, as, fn.Body); len(rss) > 0 {
-					construct += " in range " + cmpText(rss[len(rss)-1].X)
-				}
-				switch {
-				case nd == 0:
-					// pointer comes from a parameter / field we do not see defined: the caller owns it
-					if id := identOfExpr(through); id != nil {
-						if v, ok := info.ObjectOf(id).(*types.Var); ok && isParamOf(fn, v) {
-							r.Add("E9.range-pointer-alias", fn.Name, construct, p.Pos(as), Violated,
-								"store through a range pointer received as parameter "+id.Name+": the caller's declaration range is changed", true)
-							continue
-						}
-					}
-					r.Add("E9.range-pointer-alias", fn.Name, construct, p.Pos(as), Undecided, "no definition of "+tp+" found in the function", true)
-				case len(bad) > 0:
-					r.Add("E9.range-pointer-alias", fn.Name, construct, p.Pos(as), Violated,
-						fmt.Sprintf("%s may hold a pointer copied from %s; storing through it also changes that declaration's range", exprStr(through), strings.Join(dedup(bad), ", ")), true)
-				default:
-					r.Add("E9.range-pointer-alias", fn.Name, construct, p.Pos(as), OK, fmt.Sprintf("all %d definitions of %s are fresh (Ptr() of a value / address of a literal)", nd, tp), true)
-				}
+				judgeRangeStore(p, r, fn, through, exprStr(l), as, 2)
 			}
 			return true
 		})
@@ -386,6 +343,11 @@ func runC09Ctx(p *Prog, r *Report) {
 							continue
 						}
 						if exprStr(d) == cname+".ParentRangePtr" {
+							hasCtx = true
+							continue
+						}
+						// the same choice made by a helper on the context
+						if c, ok := ast.Unparen(d).(*ast.CallExpr); ok && ctxRangeHelper(fn, c, cname) {
 							hasCtx = true
 							continue
 						}
@@ -643,10 +605,10 @@ func runC09Ctx(p *Prog, r *Report) {
 	r.Counts["E9.child-contexts"] = nChild
 	r.Counts["E9.element-range-assignments"] = nRange
 	r.Counts["E9.range-pointer-stores"] = nStore
-	r.ExpectMin("E9.target-literals-from-context", nLit, 9)
-	r.ExpectMin("E9.child-contexts", nChild, 5)
-	r.ExpectMin("E9.element-range-assignments", nRange, 4)
-	r.ExpectMin("E9.range-pointer-stores", nStore, 3)
+	r.ExpectMin("E9.target-literals-from-context", nLit, 6)
+	r.ExpectMin("E9.child-contexts", nChild, 3)
+	r.ExpectMin("E9.element-range-assignments", nRange, 3)
+	r.ExpectMin("E9.range-pointer-stores", nStore, 1)
 	r.Clauses = append(r.Clauses,
 		"E9 every target built from a TargetContext takes address, local address, scope, visibility, range and definition range from that context; child contexts are copies extended by exactly one loop-keyed step (same step for the local address); element ranges come from the element itself; no store through a range pointer shared with another target")
 }
@@ -792,4 +754,179 @@ func reachesWithoutRedef(fn *Func, a, b ast.Node, obj types.Object) bool {
 		work = append(work, blk.Succs...)
 	}
 	return false
+}
+
+// ctxRangeHelper: call is a module helper invoked on context cname (as receiver or argument)
+// each of whose returns yields that context's ParentRangePtr or a fresh pointer to the range
+// of an expression parameter bound to <…>.expr, with ParentRangePtr among them.
+func ctxRangeHelper(fn *Func, call *ast.CallExpr, cname string) bool {
+	info := fn.Info()
+	f := calleeOf(info, call)
+	if f == nil {
+		return false
+	}
+	tgt := fn.Prog.FuncOf[f]
+	if tgt == nil || tgt.Body == nil || tgt.Decl == nil {
+		return false
+	}
+	// bind formals to actuals
+	bind := map[string]string{}
+	if tgt.Decl.Recv != nil && len(tgt.Decl.Recv.List) == 1 && len(tgt.Decl.Recv.List[0].Names) == 1 {
+		if sel, ok := ast.Unparen(call.Fun).(*ast.SelectorExpr); ok {
+			bind[tgt.Decl.Recv.List[0].Names[0].Name] = exprStr(sel.X)
+		}
+	}
+	i := 0
+	for _, fl := range tgt.Decl.Type.Params.List {
+		for _, nm := range fl.Names {
+			if i < len(call.Args) {
+				bind[nm.Name] = exprStr(call.Args[i])
+			}
+			i++
+		}
+	}
+	hasCtx, allOK, n := false, true, 0
+	ast.Inspect(tgt.Body, func(m ast.Node) bool {
+		if _, ok := m.(*ast.FuncLit); ok {
+			return false
+		}
+		rs, ok := m.(*ast.ReturnStmt)
+		if !ok {
+			return true
+		}
+		n++
+		if len(rs.Results) != 1 {
+			allOK = false
+			return true
+		}
+		res := ast.Unparen(rs.Results[0])
+		if sel, ok := res.(*ast.SelectorExpr); ok && sel.Sel.Name == "ParentRangePtr" {
+			if id, ok := ast.Unparen(sel.X).(*ast.Ident); ok && bind[id.Name] == cname {
+				hasCtx = true
+				return true
+			}
+		}
+		if c, ok := res.(*ast.CallExpr); ok && freshRangePtr(tgt.Info(), c) {
+			txt := exprStr(c)
+			for formal, actual := range bind {
+				if txt == formal+".Range().Ptr()" && strings.HasSuffix(actual, ".expr") {
+					return true
+				}
+			}
+		}
+		allOK = false
+		return true
+	})
+	return hasCtx && allOK && n > 0
+}
+
+// judgeRangeStore: a store `lhsText = …` through the *hcl.Range `through`, evaluated in fn at
+// node `at`. All definitions of the pointer path in fn must be fresh pointers; a pointer
+// received as a parameter is judged at every call site of fn (the helper stores on behalf of
+// its callers), with the stored-through path rewritten to the caller's argument.
+func judgeRangeStore(p *Prog, r *Report, fn *Func, through ast.Expr, lhsText string, at ast.Node, depth int) {
+	info := fn.Info()
+	tp := pathOf(info, through)
+	var bad []string
+	nd := 0
+	checkDef := func(rhs ast.Expr) {
+		nd++
+		if rhs == nil {
+			return
+		}
+		if !freshRangePtr(info, rhs) {
+			bad = append(bad, exprStr(rhs))
+		}
+	}
+	ast.Inspect(fn.Body, func(m ast.Node) bool {
+		switch m := m.(type) {
+		case *ast.AssignStmt:
+			if len(m.Lhs) == len(m.Rhs) {
+				for i, ll := range m.Lhs {
+					if pathOf(info, ll) == tp && tp != "" {
+						checkDef(m.Rhs[i])
+					}
+				}
+			}
+		case *ast.CompositeLit:
+			// X := T{…, RangePtr: e}: a definition of X.RangePtr
+			sel, ok := ast.Unparen(through).(*ast.SelectorExpr)
+			if !ok {
+				return true
+			}
+			par := p.Parent(m)
+			if u, ok := par.(*ast.UnaryExpr); ok {
+				par = p.Parent(u)
+			}
+			asg, ok := par.(*ast.AssignStmt)
+			if !ok || len(asg.Lhs) != 1 || pathOf(info, asg.Lhs[0]) != pathOf(info, sel.X) {
+				return true
+			}
+			for _, el := range m.Elts {
+				if kv, ok := el.(*ast.KeyValueExpr); ok {
+					if k, ok := kv.Key.(*ast.Ident); ok && k.Name == sel.Sel.Name {
+						checkDef(kv.Value)
+					}
+				}
+			}
+		}
+		return true
+	})
+	sort.Strings(bad)
+	construct := fmt.Sprintf("%s [%s]", lhsText, strings.Join(dedup(bad), ","))
+	if rss := enclosingRanges(p, at, fn.Body); len(rss) > 0 {
+		construct += " in range " + cmpText(rss[len(rss)-1].X)
+	}
+	switch {
+	case nd == 0:
+		// pointer comes from a parameter / field we do not see defined: the caller owns it
+		if id := identOfExpr(through); id != nil {
+			if v, ok := info.ObjectOf(id).(*types.Var); ok && isParamOf(fn, v) {
+				var sites []callSite
+				if fn.Obj != nil && depth > 0 && !fn.Obj.Exported() {
+					sites = buildCallersCached(p)[fn.Obj]
+				}
+				idx := -1
+				if fn.Obj != nil {
+					sig := fn.Obj.Type().(*types.Signature)
+					for i := 0; i < sig.Params().Len(); i++ {
+						if sig.Params().At(i) == v {
+							idx = i
+						}
+					}
+				}
+				if _, plain := ast.Unparen(through).(*ast.Ident); len(sites) > 0 && idx >= 0 && plain {
+					for _, cs := range sites {
+						if idx >= len(cs.call.Args) {
+							continue
+						}
+						arg := cs.call.Args[idx]
+						txt := strings.Replace(lhsText, id.Name, exprStr(arg), 1)
+						judgeRangeStore(p, r, cs.fn, arg, txt, cs.call, depth-1)
+					}
+					return
+				}
+				r.Add("E9.range-pointer-alias", fn.Name, construct, p.Pos(at), Violated,
+					"store through a range pointer received as parameter "+id.Name+": the caller's declaration range is changed", true)
+				return
+			}
+		}
+		r.Add("E9.range-pointer-alias", fn.Name, construct, p.Pos(at), Undecided, "no definition of "+tp+" found in the function", true)
+	case len(bad) > 0:
+		r.Add("E9.range-pointer-alias", fn.Name, construct, p.Pos(at), Violated,
+			fmt.Sprintf("%s may hold a pointer copied from %s; storing through it also changes that declaration's range", exprStr(through), strings.Join(dedup(bad), ", ")), true)
+	default:
+		r.Add("E9.range-pointer-alias", fn.Name, construct, p.Pos(at), OK, fmt.Sprintf("all %d definitions of %s are fresh (Ptr() of a value / address of a literal)", nd, tp), true)
+	}
+}
+
+var callersCache = map[*Prog]map[*types.Func][]callSite{}
+
+func buildCallersCached(p *Prog) map[*types.Func][]callSite {
+	if m, ok := callersCache[p]; ok {
+		return m
+	}
+	m := buildCallers(p)
+	callersCache[p] = m
+	return m
 }
